@@ -71,6 +71,8 @@ def run(ctx, tier):
     ctx.rule("W4", "(shared with C19.I2) url and url_aggregator copies of the protocol setter's state-override block agree: same refusals, same default-port elision")
     ctx.rule("W5", "the IPv6 parsers of url and url_aggregator are statement-for-statement identical up to the storage epilogue")
     ctx.rule("W7", "ada::url::get_components() computes, on every path, the offsets of the layout url_aggregator maintains")
+    ctx.rule("W9", "(shared with C10.H9) both IPv6 parsers move the pieces behind '::' from the last one down (the loop's form may "
+                   "differ between the twins and is left out of W5)")
     ctx.rule("W8", "the host parsers of the two types send the same byte values down the IDNA (unicode::to_ascii) route")
     ctx.rule("W6", "the setters of the two URL types normalise their input by the same steps in the same order")
     ctx.rule("W1", "twin implementations have the same validation skeleton")
@@ -89,9 +91,10 @@ def run(ctx, tier):
         c19.check_scheme_copies(ctx, fxs[name], "W4")
 
 
-def canon_seq(f):
+def canon_seq(f, exclude=()):
     """Statements and branch conditions of f in source order, rendered in normal form with locals and parameters
-    renamed by order of first appearance (so a renamed variable is not a difference)."""
+    renamed by order of first appearance (so a renamed variable is not a difference).  `exclude`: source offset ranges
+    whose statements are left out."""
     from lib.norm import rn
     names = {}
 
@@ -117,6 +120,7 @@ def canon_seq(f):
         if c is not None and not dev(t.get("macros")):
             items.append((t.get("cond_off") or 0, "C", c))
     items.sort(key=lambda x: x[0])
+    items = [it for it in items if not any(lo <= it[0] <= hi for lo, hi in exclude)]
     out = []
     for off, kind, x in items:
         if kind == "C":
@@ -140,8 +144,34 @@ STORAGE_WORDS = ("host", "update_base_hostname", "get_hostname", "buffer", "vali
 
 def check_ipv6_twins(ctx, fx, rule="W5"):
     import difflib
-    a = canon_seq(fx.fn1("ada::url::parse_ipv6"))
-    b = canon_seq(fx.fn1("ada::url_aggregator::parse_ipv6"))
+
+    def move_loop(f):
+        """source range of the loop that moves the pieces behind '::' (address[..] = address[..]).  Its form (for/while,
+        counter, index arithmetic) may differ between the twins; what it must do -- run from the last piece down -- is
+        C10.H9's subject, decided on each twin separately."""
+        offs = []
+        for bb in f["blocks"]:
+            for st in bb["stmts"]:
+                for x in X.stmt_nodes(st):
+                    if x.get("k") == "assign" and x.get("op") == "=":
+                        l, r = X.strip(x["lhs"]), X.strip(x["rhs"])
+                        lb = X.show(X.strip(l.get("base") or l.get("recv"))) if isinstance(l, dict) and (l.get("k") == "index" or l.get("op") == "[]") else None
+                        rb = X.show(X.strip(r.get("base") or r.get("recv"))) if isinstance(r, dict) and (r.get("k") == "index" or r.get("op") == "[]") else None
+                        if lb is not None and lb == rb and "address" in lb and st.get("off") is not None:
+                            offs.append(st["off"])
+        out = []
+        for o in offs:
+            inner = [lp for lp in (f.get("loops") or []) if lp.get("off") is not None and lp["off"] <= o <= lp.get("end", 0)]
+            if inner:
+                lp = max(inner, key=lambda q: q["off"])
+                out.append((lp["off"], lp["end"]))
+        return out
+    fa_, fb_ = fx.fn1("ada::url::parse_ipv6"), fx.fn1("ada::url_aggregator::parse_ipv6")
+    ma, mb = move_loop(fa_), move_loop(fb_)
+    if not ma or not mb:
+        ctx.broken("twins: the loop moving the pieces behind '::' was not found in a parse_ipv6 twin")
+    a = canon_seq(fa_, ma)
+    b = canon_seq(fb_, mb)
     # the storage epilogue starts where the address is serialised; only what comes before it is compared
     def cut(seq):
         for i, (t, txt) in enumerate(seq):
@@ -166,7 +196,7 @@ def check_ipv6_twins(ctx, fx, rule="W5"):
               "the two IPv6 parsers differ in a statement that is not about how the result is stored: %s — the same host text then "
               "parses to different addresses in the two URL types" % "; ".join("`%s`" % (x[1] or x[0]) for x in bad[:3]),
               where=fx.fn1("ada::url_aggregator::parse_ipv6")["loc"].replace("/repo/", ""))
-    ctx.floor(rule, same, 80, "identical statements of the IPv6 parsers")
+    ctx.floor(rule, same, 70, "identical statements of the IPv6 parsers")
 
 
 NORMALISERS = ("ada::helpers::", "ada::unicode::", "ada::checkers::", "ada::scheme::", "ada::idna::")
@@ -377,6 +407,8 @@ def check_state_writes_vs_standard(ctx, fx, rule):
 def check(ctx, fx):
     from rules import c04_route
     c04_route.check(ctx, fx, "W8")
+    from rules import c10 as _c10
+    _c10.check_ipv6_move(ctx, fx, "W9")
     # ---- W1 ----
     # (development-check builds add assertion control flow to the aggregator copy only: the
     #  skeletons are compared in the configurations without it)
